@@ -28,6 +28,7 @@ def run(ctx):
     input_bound(ctx, ctx.facts())
     from rules import C19
     C19.core(ctx, ctx.facts())         # "wherever the copies land": the exchange that brings equal tags to one shard
+    C19.shard_counts(ctx, ctx.facts()) # both copies meet only if every shard uses the same modulus
     from rules import C17
     C17.items_flushed(ctx, ctx.facts())        # every report parsed from the request body is delivered to the runner (none dropped between chunks)
     C17.deferred_error_first(ctx, ctx.facts())
